@@ -27,7 +27,7 @@ def perturb(g, rng, rel, ab):
     small = 1 + rel / 2 if rel > 0 else 1.0
     kinds = ["none", "mig_order", "descriptions", "header_nonsemantic", "anc_order", "deme_order", "epoch_value_big", "epoch_value_small",
              "epoch_drop", "mig_value_big", "mig_value_small", "pulse_value_big", "pulse_swap", "time_units", "generation_time",
-             "start_time_big", "deme_rename", "pulse_drop", "mig_drop"]
+             "start_time_big", "deme_rename", "pulse_drop", "mig_drop", "pulse_props_permute", "pulse_props_permute", "anc_props_permute"]
     kind = rng.choice(kinds)
     exp = None
     if kind == "none":
@@ -91,6 +91,21 @@ def perturb(g, rng, rel, ab):
             exp = False if abs(old - old / big) > 2 * ab else None
         else:
             exp = True
+    elif kind == "pulse_props_permute":
+        # same sources, proportions attached to different sources
+        cands = [p for p in d["pulses"] if len(p["sources"]) > 1 and len(set(p["proportions"])) > 1]
+        if cands:
+            p = rng.choice(cands)
+            p["proportions"].reverse(); exp = False
+        else:
+            exp = True
+    elif kind == "anc_props_permute":
+        cands = [dm for dm in d["demes"] if len(dm["ancestors"]) > 1 and len(set(dm["proportions"])) > 1]
+        if cands:
+            dm = rng.choice(cands)
+            dm["proportions"].reverse(); exp = False
+        else:
+            exp = True
     elif kind == "pulse_swap":
         if len(d["pulses"]) > 1 and d["pulses"][0] != d["pulses"][1]:
             d["pulses"][0], d["pulses"][1] = d["pulses"][1], d["pulses"][0]
@@ -128,7 +143,7 @@ def perturb(g, rng, rel, ab):
 
 
 def run(ctx):
-    n = 240 if ctx.tier == "quick" else 3000
+    n = 160 if ctx.tier == "quick" else 3000
     done = 0
     while done < n and ctx.time_left() > 10:
         batch = gen_valid_graphs(ctx, min(80, n - done))
